@@ -5,6 +5,8 @@ package main
 
 import (
 	"fmt"
+	"go/ast"
+	"go/parser"
 	"go/types"
 	"strings"
 
@@ -117,6 +119,9 @@ func (ex *Exec) call(f *Frame, st *State, x *ssa.Call, b *ssa.BasicBlock, i int,
 				}
 			}
 			t, err := ec.formula(c.Src)
+			if err != nil && c.Optional && (strings.Contains(err.Error(), "unwrap:") || strings.Contains(err.Error(), "unknown identifier")) {
+				continue
+			}
 			if err != nil {
 				ex.aborted = fmt.Sprintf("contract error (%s): %v", c.Line, err)
 				return false
@@ -295,6 +300,9 @@ func (ex *Exec) applyContract(f *Frame, st *State, x ssa.Instruction, con *Contr
 							panic(r)
 						}
 					}()
+					if ex.havocLocation(st, ec, m) {
+						return
+					}
 					tv := ec.evalSrc(m)
 					w.havocReach(st, tv.V, seen)
 				}()
@@ -566,4 +574,34 @@ func (ex *Exec) runDefers(f *Frame, st *State, b *ssa.BasicBlock, i int, prev *s
 		}
 	}
 	return false
+}
+
+// havocLocation: a modifies clause of the form p.f (p a pointer) names the
+// location: the field gets a fresh value; nothing else changes.
+func (ex *Exec) havocLocation(st *State, ec *ExprCtx, src string) bool {
+	e, err := parser.ParseExpr(strings.TrimSpace(src))
+	if err != nil {
+		return false
+	}
+	sel, ok := e.(*ast.SelectorExpr)
+	if !ok {
+		return false
+	}
+	base := ec.eval(sel.X)
+	p, ok := base.V.(VPtr)
+	if !ok || base.T == nil {
+		return false
+	}
+	pt, ok := under(base.T).(*types.Pointer)
+	if !ok {
+		return false
+	}
+	idx, ft := findField(pt.Elem(), sel.Sel.Name)
+	if len(idx) != 1 || (p.Root == nil && p.Arr == nil) {
+		return false
+	}
+	np := p
+	np.Path = append(append([]PathElem(nil), p.Path...), PathElem{Field: idx[0]})
+	ex.w.store(st, np, ex.w.freshReg(st, ft, "mod_"+sel.Sel.Name, OrigCall))
+	return true
 }
